@@ -27,8 +27,10 @@ Record quirks := {
   q_cap_all : bool;          (* instantiate_name upper-cases every occurrence of the first letter *)
   q_scoped_substring : bool; (* scoped rewrite uses str.replace on the whole printed name *)
   q_typedef_stale : bool;    (* typedef targets are looked up in the partially rewritten tree *)
+  q_first_level_only : bool; (* instantiate_type as written: string tests on the printed name, only the
+                                first template-argument level rewritten; off = structural substitution *)
 }.
-Definition impl_quirks : quirks := {| q_cap_all := true; q_scoped_substring := true; q_typedef_stale := true |}.
+Definition impl_quirks : quirks := {| q_cap_all := true; q_scoped_substring := true; q_typedef_stale := true; q_first_level_only := true |}.
 
 Definition dummy_tn : typename := Typename [] (NStr "<IndexError>") [].
 Definition nth_inst (k : nat) (insts : list typename) : typename := nth k insts dummy_tn.
@@ -80,7 +82,7 @@ Definition ty_basic (t : ty) : bool := match t with TPlain _ _ _ b => b | _ => f
    cpp  : the cpp_typename argument ('' is None)
    icls : Some t when instantiated_class is given (static-method return types), t being the
           structured Typename built at helpers.py:108-113 *)
-Definition inst_type (q : quirks) (tnames : list string) (insts : list typename)
+Definition inst_type_impl (q : quirks) (tnames : list string) (insts : list typename)
            (cpp : option typename) (icls : option typename) (t : ty) : ty :=
   let t1 := match t with
             | TTempl ns n ps c p => TTempl ns n (map (rewrite_param tnames insts) ps) c p
@@ -132,6 +134,55 @@ Definition inst_type (q : quirks) (tnames : list string) (insts : list typename)
       else t1
     end
   end.
+
+(* Specified behaviour, executable: structural capture-free substitution at every depth.  A
+   parameter or This as whole name is replaced by the concrete type; as leading path component
+   (T::X, This::X) by its C++ spelling; the occurrence keeps its own qualifiers. *)
+Section SubstTy.
+  Variable tnames : list string.
+  Variable insts : list typename.
+  Variable this_tn : typename.
+
+  Definition sigma_tn (n : string) : option typename :=
+    match index_of n tnames with
+    | Some k => nth_error insts k
+    | None => if String.eqb n "This" then Some this_tn else None
+    end.
+  Fixpoint subst_ty (t : ty) : ty :=
+    match t with
+    | TPlain (Typename ns (NStr n) []) c p b =>
+      match ns ++ [n] with
+      | h :: rest =>
+        match sigma_tn h, rest with
+        | Some x, [] => TPlain x c p b
+        | Some x, _ => TPlain (Typename [] (NStr (join "::" (tn_cpp x :: rest))) []) c p b
+        | None, _ => t
+        end
+      | [] => t
+      end
+    | TPlain _ _ _ _ => t
+    | TTempl ns (NStr n) ps c p =>
+      let ps' := map subst_ty ps in
+      match ns ++ [n] with
+      | h :: rest =>
+        match sigma_tn h with
+        | Some x => TTempl [] (NStr (join "::" (tn_cpp x :: rest))) ps' c p
+        | None => TTempl ns (NStr n) ps' c p
+        end
+      | [] => TTempl ns (NStr n) ps' c p
+      end
+    | TTempl ns n ps c p => TTempl ns n (map subst_ty ps) c p
+    end.
+End SubstTy.
+
+Definition inst_type (q : quirks) (tnames : list string) (insts : list typename)
+           (cpp : option typename) (icls : option typename) (t : ty) : ty :=
+  if q_first_level_only q then inst_type_impl q tnames insts cpp icls t
+  else subst_ty tnames insts
+                (match icls with
+                 | Some x => x
+                 | None => match cpp with Some x => x | None => Typename [] (NStr "") [] end
+                 end) t.
 
 Definition inst_arg q tnames insts cpp (a : arg) : arg :=
   {| a_ty := inst_type q tnames insts cpp None (a_ty a); a_name := a_name a; a_default := a_default a |}.
